@@ -11,6 +11,7 @@ R2 the router: a message is returned for sending only if its node is unknown, no
 R3 the hold queue is popped only by the flush; the flush is reached exactly from the wake-up
    announcements of each version, for a known node.
 R4 on the sleeping branch of set_child_value no sink is reachable.
+R5 every node owns its hold queue and desired-state map: each initialisation is a fresh container.
 """
 from __future__ import annotations
 
@@ -276,6 +277,31 @@ EXPECTED_CLASS = {
 }
 
 
+def container_freshness(analysis: Analysis, res: RuleResult) -> None:
+    """R5: each node owns its hold queue and desired-state map (no object shared between nodes)."""
+    mod = analysis.p.modules["sensor"]
+    n = 0
+    for node in ast.walk(mod.tree):
+        if isinstance(node, ast.Assign):
+            for t in node.targets:
+                if isinstance(t, ast.Attribute) and isinstance(t.value, ast.Name) and t.value.id == "self" and t.attr in ("new_state", "queue", "children", "values"):
+                    fn = common.func_of_node(analysis, mod, node)
+                    v = node.value
+                    fresh = (isinstance(v, ast.Dict) and not v.keys) or (isinstance(v, ast.Call) and unparse(v.func) in ("dict", "deque", "collections.deque") and not v.args and not v.keywords)
+                    n += 1
+                    res.add("C07-R5", f"{fn} / self.{t.attr} is a fresh container per node", fresh, common.where(analysis, mod, node), unparse(v)[:60] if fresh else f"self.{t.attr} = {unparse(v)[:60]}: the container may be shared between nodes, so one node's sleep state or held traffic leaks to another")
+    # the constructor and the pickle restore hook must both hand every node its own containers
+    for fn in ("sensor:Sensor.__init__", "sensor:Sensor.__setstate__"):
+        info = analysis.p.funcs.get(fn)
+        if info is None:
+            raise AnalysisError(f"anchor vanished: {fn}")
+        for attr in ("new_state", "queue"):
+            ok = any(isinstance(st, ast.Assign) and any(unparse(t) == f"self.{attr}" for t in st.targets) and ((isinstance(st.value, ast.Dict) and not st.value.keys) or (isinstance(st.value, ast.Call) and unparse(st.value.func) in ("dict", "deque", "collections.deque") and not st.value.args)) for st in info.node.body)
+            res.add("C07-R5", f"{fn} / gives the node its own `{attr}`", ok, common.where(analysis, info, info.node), f"self.{attr} = <fresh container>" if ok else f"{fn} does not assign a fresh `{attr}` container: nodes (e.g. all nodes restored from one pickle file) can share one sleep state / hold queue")
+    if n < 3:
+        raise AnalysisError(f"C07-R5: only {n} container initialisations found in sensor.py")
+
+
 def run(analysis: Analysis, tier: str) -> RuleResult:
     res = RuleResult(PROP)
     res.explanation = [
@@ -352,6 +378,7 @@ def run(analysis: Analysis, tier: str) -> RuleResult:
         res.add("C07-R1", f"{site} / {kind} site is {sorted(exp)[0]} on every path", ok, where, f"classes seen: {sorted(classes) if classes else 'site never reached by an analysed root'}")
     if len(sites) < 10:
         raise AnalysisError(f"C07-R1: only {len(sites)} sink sites found, expected at least 10")
+    container_freshness(analysis, res)
     res.units = {"contexts": len(specs), "paths": sum(s["paths"] for s in sums), "sink_events_classified": total_sinks, "sink_sites": len(sites) + 1, "source_digest": analysis.p.digest()}
     res.not_decided = ["timing of the burst"]
     res.assumptions = ["INV-KEY-ID (C01-INV): sensors[k].sensor_id == k", "user code that calls Gateway.send() with hand-built strings is outside the rule (documented raw API)"]
